@@ -93,6 +93,7 @@ type LendKeeper interface {
 	UpdateLendStats(ctx sdk.Context, AssetID, PoolID uint64, amount sdk.Int, inc bool)
 	DeleteLendForAddressByAsset(ctx sdk.Context, address string, lendingID uint64)
 	DeleteLend(ctx sdk.Context, id uint64)
+	GetUserLendBorrowMapping(ctx sdk.Context, owner string, lendID uint64) (userMapping lendtypes.UserAssetLendBorrowMapping, found bool)
 }
 
 type RewardsKeeper interface {
